@@ -1700,16 +1700,21 @@ class DiameterMessage:
         avp = getattr(self, avp_name)
         index = self._lookup_avp_index(avp)
 
-        _avp_class = loader.get_avp_class(avp)
+        try:
+            _avp_class = loader.get_avp_class(avp)
+        except KeyError:
+            #: Unknown AVP: there is no specialized class to rebuild it from.
+            avp.data = avp_value
+            return
 
-        setattr(self, avp_name, _avp_class(avp_value))
-        self[index] = _avp_class(avp_value)
+        #: The attribute and the list position must refer to the very same 
+        #: DiameterAVP object.
+        new_avp = _avp_class(avp_value)
+        new_avp.flags = avp.flags
+        new_avp.vendor_id = avp.vendor_id
 
-        new_avp_att = getattr(self, avp_name)
-        new_avp_arr = self[index]
-
-        new_avp_att.flags = new_avp_arr.flags = avp.flags
-        new_avp_att.vendor_id = new_avp_arr.vendor_id = avp.vendor_id
+        self._avps[index] = new_avp
+        setattr(self, avp_name, new_avp)
 
 
 class DiameterRequest(DiameterMessage):
